@@ -1,6 +1,7 @@
 package logging
 
 import (
+	"errors"
 	"io"
 	"log"
 	"os"
@@ -58,6 +59,9 @@ func WithFlag(flag int) Option {
 // WithLevel sets the level of the logger.
 func WithLevel(level Level) Option {
 	return func(options *options) error {
+		if level < Debug || level > Fatal {
+			return errors.New("invalid log level")
+		}
 		options.level = level
 		options.levelSet = true
 		return nil
